@@ -14,7 +14,11 @@ RULE = (
     "two runs (two SQLDataHolder instances) against one sqlite file. Oracle: "
     "dict model - table nodes holds exactly the first occurrence of every id "
     "with all columns equal, NODE_ASSOCIATION exactly (parent, child) of "
-    "those first occurrences that have a parent. Non-trivial: some batch "
+    "those first occurrences that have a parent. A second stage is a "
+    "Hypothesis rule based state machine: histories of up to 8 ingesting "
+    "runs (own holder instance, drawn batch size 1..7, 1..6 occurrences over "
+    "5 ids) against one sqlite file with the same comparison after every "
+    "run (non-trivial there: >=2 runs with a repeated id). Non-trivial: some batch "
     "contains both a duplicate id and a non-duplicate id. Distinct by the "
     "serialised stream + split.")
 ASSUMPTIONS = [
@@ -104,8 +108,109 @@ def check_case(case):
                 store.dispose(h)
 
 
+def check_steps(case):
+    """A history of ingesting runs (each its own SQLDataHolder instance and
+    batch size) against one sqlite file; the store is compared with the
+    first-occurrence model after every run."""
+    sofar = []
+    with store.TempDB() as db:
+        for k, step in enumerate(case["steps"]):
+            sofar += step["events"]
+            h = store.new_holder(batch_size=step["batch"], db_uri=db.uri)
+            label = (f"run {k + 1} of {len(case['steps'])} "
+                     f"(batch_size={step['batch']})")
+            try:
+                try:
+                    store.ingest(h, mk_events({"events": step["events"]}))
+                except Exception as e:
+                    raise Violation(f"{label}: ingestion raised "
+                                    f"{type(e).__name__}: {e}")
+            finally:
+                store.dispose(h)
+            h = store.new_holder(batch_size=step["batch"], db_uri=db.uri)
+            try:
+                compare(h, {"events": sofar}, label)
+            finally:
+                store.dispose(h)
+
+
+def run_stateful(ctx, max_examples, steps):
+    """Hypothesis rule based state machine over run histories."""
+    from hypothesis import settings, seed, strategies as st, HealthCheck, Phase
+    from hypothesis.stateful import (RuleBasedStateMachine, rule,
+                                     run_state_machine_as_test)
+    failed = {}
+    ids = [f"e{k}" for k in range(5)]
+    ev = st.tuples(
+        st.sampled_from(ids),
+        st.one_of(st.none(), st.sampled_from(ids), st.just("ghost")),
+        st.sampled_from("ABC"), st.sampled_from(["t0", "t1"]),
+        st.sampled_from(["wf0", "wf1"]), st.integers(0, 50),
+        st.integers(0, 9), st.sampled_from(["appA", "appB", "appC"]))
+
+    class Runs(RuleBasedStateMachine):
+        def __init__(self):
+            super().__init__()
+            self.db = store.TempDB().__enter__()
+            self.steps = []
+            self.sofar = []
+
+        @rule(events=st.lists(ev, min_size=1, max_size=6),
+              batch=st.integers(1, 7))
+        def run(self, events, batch):
+            evs = [[e[0], None if e[1] == e[0] else e[1], e[2], e[3], e[4],
+                    e[5], e[5] + e[6], e[7]] for e in events]
+            self.steps.append({"events": evs, "batch": batch})
+            self.sofar += evs
+            h = store.new_holder(batch_size=batch, db_uri=self.db.uri)
+            label = f"run {len(self.steps)} (batch_size={batch})"
+            try:
+                try:
+                    store.ingest(h, mk_events({"events": evs}))
+                except Exception as e:
+                    failed["case"] = {"steps": list(self.steps)}
+                    raise Violation(f"{label}: ingestion raised "
+                                    f"{type(e).__name__}: {e}")
+            finally:
+                store.dispose(h)
+            h = store.new_holder(batch_size=batch, db_uri=self.db.uri)
+            try:
+                try:
+                    compare(h, {"events": self.sofar}, label)
+                except Violation:
+                    failed["case"] = {"steps": list(self.steps)}
+                    raise
+            finally:
+                store.dispose(h)
+
+        def teardown(self):
+            case = {"steps": list(self.steps)}
+            if self.steps and not failed:
+                ids_ = [e[0] for s in self.steps for e in s["events"]]
+                ctx.record(case, len(self.steps) >= 2
+                           and len(set(ids_)) < len(ids_),
+                           ["stateful", f"runs={min(len(self.steps), 6)}"])
+            self.db.__exit__(None, None, None)
+
+    try:
+        run_state_machine_as_test(
+            seed(ctx.hyp_seed(11))(Runs),
+            settings=settings(max_examples=max_examples,
+                              stateful_step_count=steps, database=None,
+                              deadline=None, report_multiple_bugs=False,
+                              phases=[Phase.generate, Phase.shrink],
+                              suppress_health_check=list(HealthCheck)))
+    except Violation as v:
+        ctx.violation(failed.get("case", {"steps": []}), str(v))
+        return True
+    return False
+
+
 def replay(case):
     try:
+        if "steps" in case:
+            check_steps(case)
+            return None
         check_case(case)
     except Violation as v:
         return str(v)
@@ -206,5 +311,7 @@ def run_shard(ctx):
         ctx.count("store_rounds", len(case["events"]) + 1 +
                   (1 if case.get("split") is not None else 0))
         check_case(case)
-    ctx.run_given(case_strategy(), fn, 150 if ctx.tier == "quick" else 2500,
-                  shrinker=shrinker)
+    if ctx.run_given(case_strategy(), fn,
+                     150 if ctx.tier == "quick" else 2500, shrinker=shrinker):
+        return
+    run_stateful(ctx, 25 if ctx.tier == "quick" else 400, 8)
